@@ -1,5 +1,6 @@
 import DmrVerif.Driver.Loop
+import DmrVerif.Driver.Hytera
 
-/-! model driver for property C12 (stub: no operations registered yet) -/
+/-! model driver for property C12 -/
 
-def main : IO Unit := Dmr.Driver.runMain []
+def main : IO Unit := Dmr.Driver.runMain [Dmr.Driver.Hytera.hyteraOp]
